@@ -125,4 +125,19 @@ Canon(q) ==          \* one representative per rotation: primitive, first non-ze
     /\ q # <<0, 0, 0, 0>> /\ Gcd4(q) = 1
     /\ LET i == CHOOSE k \in 1 .. 4 : q[k] # 0 /\ \A j \in 1 .. k - 1 : q[j] = 0 IN q[i] > 0
 QPal(k) == {q \in [1 .. 4 -> -k .. k] : Canon(q)}
+
+(* ---------------- keeping numbers small: reduce by common factors (values unchanged) ---------------- *)
+GcdSeq(v) == LET RECURSIVE G(_)
+                 G(i) == IF i = 0 THEN 0 ELSE Gcd(v[i], G(i - 1))
+             IN G(Len(v))
+DivV(v, g) == [i \in DOMAIN v |-> v[i] \div g]
+NormRV(v, den) ==      \* rational vector v/den in lowest terms, den > 0
+    LET g0 == Gcd(GcdSeq(v), den)
+        g == IF g0 = 0 THEN 1 ELSE g0
+        sg == IF den < 0 THEN -1 ELSE 1
+    IN [v |-> DivV(v, sg * g), den |-> den \div (sg * g)]
+NormT(A) ==            \* same rigid motion, primitive quaternion and reduced translation
+    LET gq == Gcd4(A.q)
+        t == NormRV(A.p, A.d)
+    IN Tf(DivV(A.q, IF gq = 0 THEN 1 ELSE gq), t.v, t.den)
 =============================================================================
